@@ -1,3 +1,4 @@
+use crate::cell::Cell;
 use crate::error::Error;
 use crate::vm::builtin::{pop_argc, pop_string, pop_symbol};
 use crate::vm::vcell::VCell;
@@ -15,14 +16,25 @@ pub fn string_symbol(vm: &mut Vm) -> Result<VCell, Error> {
     let s = pop_string(vm, "string->append")?;
     let s = s.borrow();
     let s = s.as_str();
-    let sym = s
-        .char_indices()
-        .map(|(idx, c)| match c {
-            c if idx == 0 && lex::is_initial_identifier(c) => c.to_string(),
-            c if idx > 0 && lex::is_subsequent_identifier(c) => c.to_string(),
-            c => format!("\\x{:x};", c as u32),
-        })
-        .collect::<String>();
+    // A name that the reader itself spells as this very symbol (e.g. `abc`, `+`, `...`)
+    // is kept as is, so that it is the symbol a literal denotes. Anything else
+    // (including a name with a leading digit) is escaped. A backslash is always
+    // escaped: symbol->string decodes escapes.
+    let reads_back = !s.contains('\\')
+        && !s.starts_with(|c: char| c.is_ascii_digit())
+        && matches!(parse::parse_text(s), Ok((Cell::Symbol(ref name), None)) if name == s);
+    let sym = if reads_back {
+        s.to_string()
+    } else {
+        s.char_indices()
+            .map(|(idx, c)| match c {
+                '\\' => format!("\\x{:x};", c as u32),
+                c if idx == 0 && lex::is_initial_identifier(c) => c.to_string(),
+                c if idx > 0 && lex::is_subsequent_identifier(c) => c.to_string(),
+                c => format!("\\x{:x};", c as u32),
+            })
+            .collect::<String>()
+    };
     Ok(VCell::symbol(sym))
 }
 
